@@ -57,21 +57,27 @@ func (r *Ref) pairHeld() bool {
 
 // ActionPress applies the C04 rules for pressing an action key.
 func (r *Ref) ActionPress(d *Desc, a string) {
-	p := partner(a)
-	completes := p != "" && r.HeldAct&actionBits[p] != 0
 	r.HeldAct |= actionBits[a]
-	if completes {
-		switch a {
-		case "octave_up", "octave_down":
-			r.Oct = 0
-		case "semitone_up", "semitone_down":
-			r.Sem = 0
-		case "channel_up", "channel_down":
-			r.Ch = 0
-		case "mapping_up", "mapping_down":
-			r.Map = 0
+	if a == "panic" {
+		return // panic changes no parameter and is never swallowed
+	}
+	// a complete up/down pair is held (this press completes it, or - outside C04's side condition, only offered by
+	// scenarios with FreeActions - it is a further action on top of one): the pair's parameter is (again) at its neutral
+	// value and the press has no effect of its own. With several pairs held the first of mapping, octave, semitone, channel.
+	for _, pr := range pairs {
+		if r.HeldAct&actionBits[pr[0]] != 0 && r.HeldAct&actionBits[pr[1]] != 0 {
+			switch pr[0] {
+			case "octave_up":
+				r.Oct = 0
+			case "semitone_up":
+				r.Sem = 0
+			case "channel_up":
+				r.Ch = 0
+			case "mapping_up":
+				r.Map = 0
+			}
+			return
 		}
-		return
 	}
 	switch a {
 	case "octave_up":
@@ -135,7 +141,7 @@ func (r *Ref) Offer(d *Desc, s Sym, val int32) bool {
 	if s.Action == "" || val != 1 {
 		return true
 	}
-	if r.pairHeld() && s.Action != "panic" {
+	if r.pairHeld() && s.Action != "panic" && !d.FreeActions {
 		return false // no third action while a complete pair is held (C04's side condition); panic may be injected at every point (C13)
 	}
 	p := partner(s.Action)
